@@ -119,7 +119,7 @@ def phase(rep, tier, seed, wd, owns, quick_n=250, thorough_n=5000):
 
 
 def cov(rep, st):
-    rep.cov["programs"] = {"programs_run_three_ways": st.programs, "steps_validated": st.steps, "events_validated": st.events,
+    rep.cov["whole_program_phase"] = {"programs_run_three_ways": st.programs, "steps_validated": st.steps, "events_validated": st.events,
                            "distinct_instruction_forms_executed": len(st.codes), "endings": st.endings,
                            "rule": "program = seeded sequence over spec/forms.json with address set-up, forward branches and counted loops, ending at the "
                                    "end of the code area; run by step(), by execute() and by execute() under an instruction limit; every event "
